@@ -62,10 +62,24 @@ def clone_shutdown_cases(rng, tier):
         for cl in rng.sample([1, 2], rng.choice([1, 2])):
             ops += [7, cl]
             for i in rng.sample(range(n), rng.randrange(0, n + 1)):
-                ops += [3, i]
+                ops += [rng.choice([3, 10, 10]), i]      # dropped, or (a stalled one) its client drains the socket: the request completes
         for i in range(n):
             ops += [3, i]
         yield case("tok_run", [maxc], ops), ["clone-shutdown"]
+    # several requests of ONE clone are in flight (epilogues stuck) when the clone is shut down; then the clients drain their sockets one
+    # after the other: every connection completes its request and ends (KeepConn or not), the shutdown future completes after the last
+    for _ in range(30 if tier == "quick" else 1500):
+        maxc = rng.choice([2, 3, 4])
+        n = rng.randrange(2, maxc + 1)
+        ops = []
+        for i in range(n):
+            ops += [1, 1, 2, i, rng.choice([9, 9, 8]), i]
+        ops += [7, 1]
+        order = list(range(n))
+        rng.shuffle(order)
+        for i in order:
+            ops += [10, i]
+        yield case("tok_run", [maxc], ops), ["clone-shutdown", "in-flight-at-shutdown"]
 
 
 def wg_cases(rng, tier):
@@ -106,7 +120,7 @@ def nontrivial(line, tags):
 
 
 def min_classes(tier):
-    return {"shutdown": 1000, "idle": 300, "wg": 150, "wg-last-in-window": 60, "wg-race": 3, "clone-shutdown": 60, "tok-many": 3}
+    return {"shutdown": 1000, "idle": 300, "wg": 150, "wg-last-in-window": 60, "wg-race": 3, "clone-shutdown": 60, "tok-many": 3, "in-flight-at-shutdown": 30}
 
 
 def oracle(line, impl_line):
